@@ -14,7 +14,8 @@ import subprocess
 import sys
 import time
 
-V = '/verif'
+V = os.path.dirname(os.path.abspath(__file__))
+REPO = os.environ.get('VERIF_REPO', '/repo')
 BUILD = V + '/build'
 COQ = V + '/coq'
 ENV = dict(os.environ, GOFLAGS='-mod=mod', GOPROXY='off', GOSUMDB='off', GOTOOLCHAIN='local')
@@ -129,7 +130,7 @@ def print_assumptions(prop_file):
     cmd = ('coqc -Q lib V.lib -Q gen V.gen -Q model V.model -Q spec V.spec -Q proofs V.proofs '
            '-Q Properties V.Properties %s' % prop_file)
     rc, out = sh(cmd, cwd=COQ, timeout=1200)
-    return rc == 0, out, 'cd /verif/coq && ' + cmd
+    return rc == 0, out, 'cd %s && %s' % (COQ, cmd)
 
 
 def run_runner(binary, script_path, timeout=1800):
@@ -179,7 +180,11 @@ def run_both(cases, tag, project=None):
     return ci, cm, errs
 
 
-def differs(case, tag='shrink', project=None):
+TAG = 'x'
+
+
+def differs(case, tag=None, project=None):
+    tag = tag or ('shrink_' + TAG)
     ci, cm, errs = run_both([case], tag, project)
     cid = case[0]
     return ci.get(cid) != cm.get(cid) or bool(errs), ci.get(cid), cm.get(cid)
@@ -210,11 +215,16 @@ def shrink(case, project=None, keep_prefix=0, budget=400):
 
 
 def load_known(prop):
-    p = V + '/known_findings.json'
-    if not os.path.exists(p):
-        return []
-    data = json.load(open(p))
-    return [e for e in data.get('findings', []) if e.get('property') == prop]
+    """Entries of known_findings.json plus known/<prop>.json (a list or {"findings": [...]}) for this property."""
+    out = []
+    paths = [V + '/known_findings.json', '%s/known/%s.json' % (V, prop)]
+    for p in paths:
+        if not os.path.exists(p):
+            continue
+        data = json.load(open(p))
+        items = data.get('findings', []) if isinstance(data, dict) else data
+        out.extend(e for e in items if e.get('property') == prop)
+    return out
 
 
 def write_replay(prop, name, payload):
@@ -267,6 +277,8 @@ class Check:
         t0 = time.time()
         res = Result()
         prop = P.ID
+        global TAG
+        TAG = prop
         assumptions = list(getattr(P, 'ASSUMPTIONS', []))
         # 1. hygiene
         bad = hygiene()
